@@ -1,5 +1,6 @@
 """C20 - planar predicates and spatial queries agree with exact arithmetic (explorer E1)."""
 import contextlib
+import math
 import itertools
 import signal
 from fractions import Fraction as F
@@ -53,7 +54,10 @@ def bounds(tier):
                       "surfaces degrees {1,2,3}^2 over K'(p) level 2"))[tier]
 
 
-AFF = {'id': (1.0, 0.0), 'dyadic': (0.5, -0.75)}
+# data variety: far from the origin in every coordinate (exact in floats: integer offsets), tiny and large scales, negative
+AFF = {'id': (1.0, 0.0), 'dyadic': (0.5, -0.75), 'far': (1.0, 1.0e9), 'farneg': (1.0, -1.0e9), 'tiny': (2.0 ** -20, 0.0),
+       'large': (1.0e6, -3.0e6), 'negfrac': (-0.375, 0.625)}
+VARIETY_AFF = ['far', 'farneg', 'tiny', 'large', 'negfrac']
 
 
 def _aff(p, name):
@@ -103,7 +107,7 @@ def gen_cases(tier, seed):
     cases = []
     # is_left
     for G in ((3, 4) if q else (3, 4, 5)):
-        for aff in ('id', 'dyadic'):
+        for aff in ('id', 'dyadic') + (tuple(VARIETY_AFF) if G == 3 or not q else ()):
             cases.append(dict(kind='is_left', G=G, aff=aff))
     # rays
     for dim, G in ((2, 3), (3, 2)):
@@ -111,6 +115,11 @@ def gen_cases(tier, seed):
         for a, b in itertools.permutations(pts, 2):
             for aff in ('id', 'dyadic'):
                 cases.append(dict(kind='ray', dim=dim, G=G, p1=a, p2=b, aff=aff))
+            if (a[0] + 2 * b[0] + a[-1]) % (3 if q else 1) == 0:
+                # (ray.intersect decides with an absolute tolerance of 2^8 eps: only maps that keep coordinates O(1) or scale
+                # them exactly by a power of two are inside its contract - see ASSUMPTIONS)
+                for aff in ('negfrac', 'tiny'):
+                    cases.append(dict(kind='ray', dim=dim, G=G, p1=a, p2=b, aff=aff))
     pts = _grid_pts(3, 3)
     for a, b in itertools.permutations(pts, 2):
         if not q or a in ([0, 0, 0], [1, 1, 1], [2, 0, 1]):
@@ -125,6 +134,15 @@ def gen_cases(tier, seed):
     for fam, c in (('comp3', 2), ('comp4', 3 if q else 5), ('comp5', 2 if q else 3), ('gen12', 3 if q else 6)):
         for cs in range(0, c + 1):
             cases.append(dict(kind='hull_big', family=fam, drop=cs))
+    # the same point sets far from the origin, tiny, large, negative / fractional (exactly representable images)
+    for aff in VARIETY_AFF:
+        for G, kmax in ((3, 5), (4, 3 if q else 5)):
+            for k in range(3, kmax + 1):
+                for first in range(G * G - k + 1):
+                    cases.append(dict(kind='hull', G=G, k=k, first=first, aff=aff))
+        for fam, c in (('comp3', 1), ('gen12', 2)):
+            for cs in range(0, c + 1):
+                cases.append(dict(kind='hull_big', family=fam, drop=cs, aff=aff))
     # winding number
     for G, kmax in ([(3, 5), (4, 4)] if q else [(3, 5), (4, 6)]):
         for k in range(3, kmax + 1):
@@ -352,8 +370,16 @@ def _hull_case(case, ctx):
 def _hull_one(pts, case, ctx):
     from geomdl import linalg
     pts = [[float(c) for c in p] for p in pts]
+    if case.get('aff'):
+        pts = [_aff(p, case['aff']) for p in pts]
     n = len(pts)
-    tp = [tuple(p) for p in pts]
+    # exact integers (coordinates times their common denominator; products of coordinates around 1e9 do not fit a float)
+    den = 1
+    for p in pts:
+        for c in p:
+            d = F(c).denominator
+            den = den * d // math.gcd(den, d)
+    tp = [tuple(int(F(c) * den) for c in p) for p in pts]
     base = next((c for c in tp if c != tp[0]), None)
     collinear = base is None or all(R.orient(tp[0], base, c) == 0 for c in tp)
     ext = strictly_extreme(tp)
@@ -362,13 +388,14 @@ def _hull_one(pts, case, ctx):
     if 'order' in case:
         orders = [o for o in orders if o[0] == case['order']]
     for oname, inp in orders:
-        rc = dict(kind='hull_one', pts=pts, order=oname)
-        feats = dict(size=n, collinear=collinear, order=oname, n_extreme=len(ext))
+        rc = dict(kind='hull_one', pts=pts, order=oname)      # (pts already carry the affine map of the case)
+        feats = dict(size=n, collinear=collinear, order=oname, n_extreme=len(ext), aff=case.get('aff') or 'id')
         ok, res = _call(ctx, 'C20.convex_hull.made_of_input_points', rc, feats,
                         lambda: linalg.convex_hull([list(p) for p in inp]))
         if not ok:
             continue
-        res_t = [tuple(p) for p in res]
+        res_t = [tuple(F(c) * den for c in p) for p in res]
+        res_t = [tuple(int(c) if c.denominator == 1 else c for c in p) for p in res_t]
         ctx.outcome('hull%d' % len(res_t))
         ctx.check('C20.convex_hull.made_of_input_points',
                   all(p in tp for p in res_t) and len(set(res_t)) == len(res_t), rc, feats, 'distinct input points', res)
